@@ -1150,7 +1150,15 @@ func newMethod(obj Value, f *funcT) Value {
 	if f.Variadic {
 		vArgs = -vArgs
 	}
+	variadic := f.Variadic
 	m := newFunc(vArgs, f.Rets, func(v *VM) {
+		// f is the entry of the method table, which a redefinition of the method
+		// rewrites in place: this value was bound (and its arguments were counted) for
+		// the parameter list of that time, and the frame of the new body is laid out
+		// for the new one
+		if f.Args-1 != xArgs || f.Variadic != variadic {
+			panic("incorrect args")
+		}
 		args := make([]Value, xArgs)
 		copy(args, v.stack[len(v.stack)-xArgs:])
 		v.stack = v.stack[:len(v.stack)-xArgs]
